@@ -7,6 +7,7 @@ import (
 	"go/ast"
 	"go/token"
 	"go/types"
+	"strings"
 
 	"verif/sa/core"
 )
@@ -228,4 +229,831 @@ func init() {
 		}),
 	)
 	_ = token.ADD
+}
+
+func init() {
+	extend("C26", "R26d-R26f (added after seeded changes were missed): at start-up the log is rebuilt only when it is missing or shorter than the chain — a log that is longer than the chain (every reorganisation adds entries) is left alone; "+
+		"the block store's shared batch is reset before anything is put into it, so operations of an earlier, failed use are never replayed with the next block; "+
+		"blocks (and with them sequence numbers, which are allocated by read-last-then-write) are accepted only with chainLock held, including the orphans connected after their parent.",
+		rule("R26d", "a sequence log longer than the chain is not rebuilt at start-up", 1, func(r *Run) {
+			fn := bsm + "CheckSequenceStatus"
+			lastSeq := core.FromCall(0, bsm+"LoadBlockLastSequence")
+			lastHeight := core.FromCall(0, bsm+"Height")
+			recording := map[types.Object]core.Tri{}
+			if f := r.W.Func(fn); f != nil {
+				recording[f.Param(0)] = core.True
+			}
+			need := r.W.LookupObj(bcp + "seqStatusNeedCreate")
+			core.UnreachableUnder{Fn: fn, Spec: &core.FlowSpec{AssumeObj: recording,
+				Assume: core.AssumeAll(core.AssumeRel(lastSeq, token.GTR, lastHeight, core.True), core.AssumeRel(lastSeq, token.EQL, core.IsConstInt(-1), core.False))},
+				Sink: core.SinkPred{Label: "return seqStatusNeedCreate", Match: func(fl *core.Flow, n *core.GNode) bool {
+					rs, ok := n.Ast.(*ast.ReturnStmt)
+					if !ok || len(rs.Results) != 1 {
+						return false
+					}
+					id, ok := ast.Unparen(rs.Results[0]).(*ast.Ident)
+					return ok && need != nil && fl.C.Info.ObjectOf(id) == need
+				}}, Name: "the log exists and its last sequence is greater than the chain height", Min: 1}.Check(r)
+		}),
+		rule("R26e", "the shared store batch is reset before it is filled", 2, func(r *Run) {
+			sharedBatchReset(r)
+		}),
+		rule("R26f", "blocks are accepted (and sequence numbers allocated) only under chainLock", 2, func(r *Run) {
+			lk := lockSpecFor(r, bcp+"BlockChain", "chainLock")
+			if lk == nil {
+				return
+			}
+			core.Dominated{Fn: bcm + "maybeAddBestChain", Spec: lk, Sink: core.CallSink(bcm+"maybeAcceptBlock", bcp+"(*OrphanPool).ProcessOrphans"), Need: []Fact{"W:chainLock"}, Min: 2}.Check(r)
+		}),
+	)
+	extend("C29", "R29f (added after a seeded change was missed): the shared store batch is reset before it is filled, so a block's atomic write never carries operations left over from an earlier failed use.",
+		rule("R29f", "the shared store batch is reset before it is filled", 2, func(r *Run) {
+			sharedBatchReset(r)
+		}),
+	)
+}
+
+// sharedBatchReset: every function of package blockchain that takes the block
+// store's long-lived batch (field BlockStore.batch) into a local resets it
+// before the first operation that puts something into it or writes it.
+func sharedBatchReset(r *Run) {
+	pkg := r.W.Pkg("blockchain")
+	if pkg == nil {
+		r.Unresolved("package blockchain")
+		return
+	}
+	n := 0
+	for _, f := range r.W.AllFuncs(pkg) {
+		if f.Lit != nil {
+			continue
+		}
+		c := f.Ctx()
+		var local types.Object
+		ast.Inspect(f.Body(), func(x ast.Node) bool {
+			as, ok := x.(*ast.AssignStmt)
+			if !ok || len(as.Lhs) != 1 || len(as.Rhs) != 1 {
+				return true
+			}
+			if sel, ok := ast.Unparen(as.Rhs[0]).(*ast.SelectorExpr); ok && core.IsObj(bcp + "BlockStore.batch")(c, sel) {
+				if id, ok := as.Lhs[0].(*ast.Ident); ok {
+					local = c.Info.ObjectOf(id)
+				}
+			}
+			return true
+		})
+		if local == nil {
+			continue
+		}
+		n++
+		isLocal := func(c *core.Ctx, e ast.Expr) bool {
+			id, ok := ast.Unparen(e).(*ast.Ident)
+			return ok && c.Info.ObjectOf(id) == local
+		}
+		onLocal := func(c *core.Ctx, call *ast.CallExpr) bool {
+			sel, ok := ast.Unparen(call.Fun).(*ast.SelectorExpr)
+			return ok && isLocal(c, sel.X)
+		}
+		sp := &core.FlowSpec{Calls: []core.CallGuard{{Fact: "batch-reset", Callee: core.Names("common/db.Batch.Reset"), Pass: core.OCalled, NoArgDeps: true, ArgOK: onLocal}}}
+		core.Dominated{Fn: f.Name, Spec: sp, Sink: core.SinkPred{Label: "use of the shared batch", Match: func(fl *core.Flow, nd *core.GNode) bool {
+			if nd.Ast == nil {
+				return false
+			}
+			for _, call := range core.CallsIn(nd.Ast) {
+				if onLocal(fl.C, call) {
+					if fn := core.Callee(fl.C.Info, call); fn != nil && (fn.Name() == "Reset" || fn.Name() == "UpdateWriteSync") {
+						continue
+					}
+					return true
+				}
+				for _, a := range call.Args {
+					if isLocal(fl.C, a) {
+						return true
+					}
+				}
+			}
+			return false
+		}}, Need: []Fact{"batch-reset"}, Min: 1}.Check(r)
+	}
+	label := "blockchain: functions that use the block store's shared batch"
+	if n >= 2 {
+		r.OK(label, "blockchain/", fmt.Sprintf("%d function(s)", n))
+	} else {
+		r.Fail(label, "blockchain/", fmt.Sprintf("expected ≥2 users of BlockStore.batch (dbMaybeStoreBlock, connectBlock), found %d", n))
+	}
+}
+
+func init() {
+	pruneImpliesPrefix := rule("R05e", "a pruning store always uses height-prefixed node keys: the adjustment reaches the tree configuration", 1, func(r *Run) {
+		// Without the height prefix two versions of a leaf with equal content share one database key, and
+		// pruning the old version deletes the live one.
+		fn := "system/store/mavl.New"
+		pruneOn := func(c *core.Ctx, e ast.Expr) core.Tri {
+			if sel, ok := ast.Unparen(e).(*ast.SelectorExpr); ok && sel.Sel.Name == "EnableMavlPrune" {
+				return core.True
+			}
+			return core.Unknown
+		}
+		forced := core.NodeGen{Fact: "prefix-forced", Gen: func(c *core.Ctx, n *core.GNode) bool {
+			as, ok := n.Ast.(*ast.AssignStmt)
+			if !ok || len(as.Lhs) != 1 || len(as.Rhs) != 1 {
+				return false
+			}
+			sel, ok := ast.Unparen(as.Lhs[0]).(*ast.SelectorExpr)
+			if !ok || sel.Sel.Name != "EnableMavlPrefix" {
+				return false
+			}
+			if rs, ok := ast.Unparen(as.Rhs[0]).(*ast.SelectorExpr); ok && rs.Sel.Name == "EnableMavlPrune" {
+				return true
+			}
+			tv, ok := c.Info.Types[as.Rhs[0]]
+			return ok && tv.Value != nil && tv.Value.String() == "true"
+		}}
+		core.Dominated{Fn: fn, Spec: &core.FlowSpec{Assume: pruneOn, Nodes: []core.NodeGen{forced}}, Sink: core.SinkPred{Label: "construction of the tree configuration", Match: func(fl *core.Flow, n *core.GNode) bool {
+			found := false
+			core.InspectNode(n.Ast, func(x ast.Node) bool {
+				if cl, ok := x.(*ast.CompositeLit); ok {
+					if t := fl.C.Info.TypeOf(cl); t != nil && core.TypeShort(t) == "system/store/mavl/db.TreeConfig" {
+						found = true
+					}
+				}
+				return true
+			})
+			return found
+		}}, Need: []Fact{"prefix-forced"}, Min: 1}.Check(r)
+	})
+	addPackages("C05", "system/store/mavl")
+	extend("C05", "R05a extended, R05e (added after seeded changes were missed): under pruning no path of Save hands out a root without having dropped the stale index entries, queued the nodes and recorded the height's root hash; "+
+		"the store forces height-prefixed node keys on before the tree configuration is built whenever pruning is enabled.", pruneImpliesPrefix)
+	p2 := pruneImpliesPrefix
+	p2.ID = "R02e"
+	extend("C02", "R02e (added after a seeded change was missed): the prune-implies-prefix adjustment reaches the tree configuration (otherwise a pruning store loses nodes a plain store keeps and cannot compute the same roots).", p2)
+}
+
+// addPackages makes sure the quick tier loads the given packages for a property.
+func addPackages(id string, pkgs ...string) {
+	p := registry[id]
+	for _, pk := range pkgs {
+		have := false
+		for _, q := range p.Packages {
+			if q == pk {
+				have = true
+			}
+		}
+		if !have {
+			p.Packages = append(p.Packages, pk)
+		}
+	}
+}
+
+func init() {
+	extend("C03", "R03c (added after a seeded change was missed): the recomputed inner node always contains the child hash — on every path of InnerNodeProofHash the child hash is assigned to one side before the node is hashed, so a branch that carries both sibling hashes cannot leave the proven leaf out of the root.",
+		rule("R03c", "the child hash enters every recomputed inner node", 1, func(r *Run) {
+			fn := mdb + "InnerNodeProofHash"
+			bound := core.NodeGen{Fact: "child-hash-bound", Gen: func(c *core.Ctx, n *core.GNode) bool {
+				as, ok := n.Ast.(*ast.AssignStmt)
+				if !ok || len(as.Lhs) != 1 || len(as.Rhs) != 1 || !core.IsObj("param:0")(c, as.Rhs[0]) {
+					return false
+				}
+				sel, ok := ast.Unparen(as.Lhs[0]).(*ast.SelectorExpr)
+				return ok && (sel.Sel.Name == "LeftHash" || sel.Sel.Name == "RightHash")
+			}}
+			core.Dominated{Fn: fn, Spec: &core.FlowSpec{Nodes: []core.NodeGen{bound}}, Sink: core.CallSink("types.(*InnerNode).Hash"), Need: []Fact{"child-hash-bound"}, Min: 1}.Check(r)
+		}),
+	)
+	extend("C02", "R02f-R02g (added after seeded changes were missed): in the node hash functions a digest is cut out of a hash with a bound computed from that same hash (never from the sibling's length); "+
+		"a write never returns the node it found — Node.set returns a node created by this call on every path (a leaf hit is replaced, an inner node is copied first), so the result cannot depend on what the stored leaf happens to hold under the node-storage configuration.",
+		rule("R02f", "digest slices are bounded by the length of the slice they cut", 2, func(r *Run) {
+			n := 0
+			for _, fn := range []string{"types.(*InnerNode).Hash", "types.(*LeafNode).Hash", mdb + "(*Proof).Verify"} {
+				f := r.Fn(fn)
+				if f == nil {
+					continue
+				}
+				c := f.Ctx()
+				ast.Inspect(f.Body(), func(x ast.Node) bool {
+					se, ok := x.(*ast.SliceExpr)
+					if !ok {
+						return true
+					}
+					for _, bnd := range []ast.Expr{se.Low, se.High} {
+						if bnd == nil {
+							continue
+						}
+						ast.Inspect(bnd, func(y ast.Node) bool {
+							call, ok := y.(*ast.CallExpr)
+							if !ok || !core.IsBuiltinCall(c.Info, call, "len") || len(call.Args) != 1 {
+								return true
+							}
+							n++
+							label := fmt.Sprintf("%s: bound of `%s` is computed from the sliced value itself", f.Name, core.ExprStr(se))
+							if core.CanonExpr(c, call.Args[0]) == core.CanonExpr(c, se.X) {
+								r.OK(label, r.W.Pos(se.Pos()), core.ExprStr(bnd))
+							} else {
+								r.Fail(label, r.W.Pos(se.Pos()), fmt.Sprintf("the bound uses len(%s) but the sliced value is %s: with hashes of different lengths (a prefixed and an unprefixed child) the wrong bytes are hashed, or the slice panics", core.ExprStr(call.Args[0]), core.ExprStr(se.X)))
+							}
+							return true
+						})
+					}
+					return true
+				})
+			}
+			if n < 2 {
+				r.Fail("digest slices in the node hash functions", "types/types.go", fmt.Sprintf("expected ≥2 length-bounded slices, found %d", n))
+			}
+		}),
+		rule("R02g", "Node.set returns a node created by this call on every path", 3, func(r *Run) {
+			fn := mdbN + "set"
+			f := r.Fn(fn)
+			if f == nil {
+				return
+			}
+			recv := f.Recv()
+			isRecv := func(c *core.Ctx, e ast.Expr) bool {
+				id, ok := ast.Unparen(e).(*ast.Ident)
+				return ok && c.Info.ObjectOf(id) == types.Object(recv)
+			}
+			rebound := core.NodeGen{Fact: "receiver-is-a-copy", Gen: func(c *core.Ctx, n *core.GNode) bool {
+				as, ok := n.Ast.(*ast.AssignStmt)
+				return ok && len(as.Lhs) == 1 && len(as.Rhs) == 1 && isRecv(c, as.Lhs[0]) && core.CallAtom([]string{mdbN + "_copy"})(c, as.Rhs[0])
+			}}
+			core.Dominated{Fn: fn, Spec: &core.FlowSpec{Nodes: []core.NodeGen{rebound}}, Sink: core.SinkPred{Label: "return of the receiver", Match: func(fl *core.Flow, n *core.GNode) bool {
+				rs, ok := n.Ast.(*ast.ReturnStmt)
+				return ok && len(rs.Results) >= 1 && isRecv(fl.C, rs.Results[0])
+			}}, Need: []Fact{"receiver-is-a-copy"}, Min: 1}.Check(r)
+			// the other returns are constructors
+			c := f.Ctx()
+			for i, ret := range f.Graph().Returns() {
+				rs, ok := ret.Ast.(*ast.ReturnStmt)
+				if !ok || len(rs.Results) < 1 || isRecv(c, rs.Results[0]) {
+					continue
+				}
+				label := fmt.Sprintf("%s return#%d yields a new node", f.Name, i+1)
+				e := ast.Unparen(rs.Results[0])
+				good := false
+				switch x := e.(type) {
+				case *ast.UnaryExpr:
+					_, good = ast.Unparen(x.X).(*ast.CompositeLit)
+				case *ast.CallExpr:
+					if fnc := core.Callee(c.Info, x); fnc != nil {
+						switch core.ShortName(fnc) {
+						case mdb + "NewNode", mdbN + "balance", mdbN + "_copy":
+							good = true
+						}
+					}
+				}
+				if good {
+					r.OK(label, r.W.Pos(rs.Pos()), core.ExprStr(e))
+				} else {
+					r.Fail(label, r.W.Pos(rs.Pos()), fmt.Sprintf("`%s` is not a node constructed by this call", core.ExprStr(e)))
+				}
+			}
+		}),
+	)
+}
+
+func init() {
+	pr := "system/p2p/dht/protocol/peer."
+	peerTrust := func(r *Run, fn *types.Func) (string, bool) {
+		if fn.Pkg() != nil && strings.HasSuffix(fn.Pkg().Path(), "p2p/dht/protocol/peer") {
+			return "", false
+		}
+		return outsideTrust(r, fn)
+	}
+	addPackages("C33", "system/p2p/dht/protocol/peer")
+	extend("C33", "R33d (added after a seeded change was missed): the same enumeration of index/slice/assertion/division sites for the peer-information protocol's background goroutines (peer info refresh, version check, address detection), which process replies of remote peers outside any recover frame.",
+		rule("R33d", "peer-information goroutines: every may-panic site on peer-derived data is guarded", 8, func(r *Run) {
+			fns := []string{
+				pr + "(*Protocol).refreshPeerInfo", pr + "(*Protocol).refreshPeerInfo$lit1", pr + "(*Protocol).queryPeerInfo", pr + "(*Protocol).queryPeerInfoOld",
+				pr + "(*Protocol).checkVersionLimit", pr + "(*Protocol).checkOutBound", pr + "(*Protocol).detectNodeAddr", pr + "(*Protocol).queryVersion", pr + "(*Protocol).queryVersionOld",
+				pr + "(*Protocol).setExternalAddr", pr + "(*Protocol).getExternalAddr", pr + "(*Protocol).getPublicIP", pr + "(*Protocol).containsPublicIP", pr + "parseIPAndPort",
+				pr + "(*Protocol).checkDone",
+			}
+			core.MayPanic{Funcs: fns, TrustFn: peerTrust, SkipNilDeref: true, CheckAlloc: true, Min: 8, IndexOK: map[string]string{}}.Check(r)
+		}),
+	)
+}
+
+// appendSeq lists, in order, the canonical forms of what fn appends onto its
+// result buffer (statements `x = append(x, E...)` / `x = append(x, E)`).
+func appendSeq(f *core.FuncInfo) []string {
+	c := f.Ctx()
+	var seq []string
+	ast.Inspect(f.Body(), func(x ast.Node) bool {
+		as, ok := x.(*ast.AssignStmt)
+		if !ok || len(as.Lhs) != 1 || len(as.Rhs) != 1 {
+			return true
+		}
+		call, ok := as.Rhs[0].(*ast.CallExpr)
+		if !ok || !core.IsBuiltinCall(c.Info, call, "append") || len(call.Args) != 2 {
+			return true
+		}
+		if core.CanonExpr(c, as.Lhs[0]) != core.CanonExpr(c, call.Args[0]) {
+			return true
+		}
+		seq = append(seq, core.CanonExpr(c, call.Args[1]))
+		return true
+	})
+	return seq
+}
+
+func init() {
+	extend("C09", "R09e (added after a seeded change was missed): a versioned read lists under the prefix built by the one prefix constructor (data marker, key, separator) and seeks to the key built by the one key constructor, and the key constructor's byte sequence is the prefix constructor's followed by the padded version — so the entries of a key can never be confused with those of a key that merely starts with the same bytes.",
+		rule("R09e", "reader and writer use the same key layout: prefix = marker+key+separator, key = prefix+version", 3, func(r *Run) {
+			core.CallArgs{Fn: smv + "GetV", Callee: []string{dbp + "KVDB.List", dbp + "IteratorDB.List", dbp + "Lister.List"}, What: "lists under GetKeyPerfix(key), seeking GetKey(key, version)",
+				Args: map[int]core.ExprPred{0: core.FromCall(0, dbp+"GetKeyPerfix"), 1: core.FromCall(0, dbp+"GetKey")}, Min: 1}.Check(r)
+			core.CallArgs{Fn: smv + "GetV", Callee: []string{dbp + "GetKeyPerfix", dbp + "GetKey"}, What: "built from the caller's key", Args: map[int]core.ExprPred{0: core.IsObj("param:0")}, Min: 2}.Check(r)
+			fp, fk := r.Fn(dbp+"GetKeyPerfix"), r.Fn(dbp+"GetKey")
+			if fp != nil && fk != nil {
+				sp, sk := appendSeq(fp), appendSeq(fk)
+				label := "common/db.GetKey appends exactly what GetKeyPerfix appends, then the padded version"
+				good := len(sp) >= 3 && len(sk) == len(sp)+1
+				for i := range sp {
+					if i >= len(sk) || sk[i] != sp[i] {
+						good = false
+					}
+				}
+				if good {
+					r.OK(label, r.W.Pos(fk.Node().Pos()), strings.Join(sk, " ++ "))
+				} else {
+					r.Fail(label, r.W.Pos(fk.Node().Pos()), fmt.Sprintf("GetKeyPerfix appends [%s], GetKey appends [%s]", strings.Join(sp, ", "), strings.Join(sk, ", ")))
+				}
+			}
+		}),
+	)
+
+	mkl := "common/merkle."
+	extend("C18", "R18e-R18g (added after seeded changes were missed): in the chunked root computation the chunk size is final before the number of chunks is derived from it; in the constant-space calculator every pairing inside the leaf loop is preceded by the equal-siblings comparison whatever the mode flag says; "+
+		"the two copies of the 'propagate upwards' step (leaf loop and padding loop) agree — the arm taken at the recorded match level both appends the current hash to the branch and switches to collecting the stored siblings.",
+		rule("R18e", "chunk size is final before the chunk count is computed from it", 2, func(r *Run) {
+			f := r.Fn(mkl + "GetMerkleRoot")
+			if f == nil {
+				return
+			}
+			c := f.Ctx()
+			// the chunk-size variable: divisor of len(hashes) / X and len(hashes) % X
+			var step types.Object
+			var uses []ast.Node
+			ast.Inspect(f.Body(), func(x ast.Node) bool {
+				b, ok := x.(*ast.BinaryExpr)
+				if !ok || (b.Op != token.QUO && b.Op != token.REM) || !lenOf(core.IsObj("param:0"))(c, b.X) {
+					return true
+				}
+				if id, ok := ast.Unparen(b.Y).(*ast.Ident); ok && b.Op == token.REM {
+					step = c.Info.ObjectOf(id) // the chunk size is what the leaf count is taken modulo of
+				}
+				return true
+			})
+			ast.Inspect(f.Body(), func(x ast.Node) bool {
+				b, ok := x.(*ast.BinaryExpr)
+				if !ok || (b.Op != token.QUO && b.Op != token.REM) || !lenOf(core.IsObj("param:0"))(c, b.X) {
+					return true
+				}
+				if id, ok := ast.Unparen(b.Y).(*ast.Ident); ok && step != nil && c.Info.ObjectOf(id) == step {
+					uses = append(uses, b)
+				}
+				return true
+			})
+			label := f.Name + ": the chunk size is not changed after the chunk count was derived from it"
+			if step == nil || len(uses) < 2 {
+				r.Fail(label, r.W.Pos(f.Node().Pos()), "cannot find len(hashes)/step and len(hashes)%step (anchor changed)")
+				return
+			}
+			g := f.Graph()
+			var starts []*core.GNode
+			for _, u := range uses {
+				if n := g.NodeContaining(u.Pos()); n != nil {
+					starts = append(starts, n)
+				}
+			}
+			reach := g.Reachable(starts, nil, nil)
+			bad := ""
+			for n := range reach {
+				as, ok := n.Ast.(*ast.AssignStmt)
+				if !ok {
+					continue
+				}
+				for _, l := range as.Lhs {
+					if id, ok := l.(*ast.Ident); ok && c.Info.ObjectOf(id) == step {
+						isStart := false
+						for _, s := range starts {
+							if s == n {
+								isStart = true
+							}
+						}
+						if !isStart {
+							bad = r.W.Pos(as.Pos()) + ": `" + core.ExprStr(as) + "`"
+						}
+					}
+				}
+			}
+			if bad == "" {
+				r.OK(label, r.W.Pos(uses[0].Pos()), fmt.Sprintf("%d uses; no later assignment to %s", len(uses), step.Name()))
+			} else {
+				r.Fail(label, r.W.Pos(uses[0].Pos()), "the chunk size is reassigned after the number of chunks was computed ("+bad+"): the chunks no longer cover every leaf")
+			}
+			// and the loop slices hashes[i*step : …] by that same variable
+			core.HasAtom{Fn: mkl + "GetMerkleRoot", Name: "the last chunk is clipped to the number of leaves", L: func(c *core.Ctx, e ast.Expr) bool { _, ok := ast.Unparen(e).(*ast.Ident); return ok }, R: lenOf(core.IsObj("param:0")), Rel: token.GTR}.Check(r)
+		}),
+		rule("R18f", "every pairing in the leaf loop is preceded by the equal-siblings test, in every mode", 1, func(r *Run) {
+			fn := mkl + "Computation"
+			f := r.Fn(fn)
+			if f == nil {
+				return
+			}
+			inLeafLoop := func(pos token.Pos) bool {
+				for _, lp := range core.LoopsIn(f) {
+					if rs, ok := lp.(*ast.RangeStmt); ok && core.IsObj("param:0")(f.Ctx(), rs.X) && pos >= rs.Body.Pos() && pos <= rs.Body.End() {
+						return true
+					}
+				}
+				return false
+			}
+			sp := &core.FlowSpec{Calls: []core.CallGuard{called("siblings-compared", "bytes.Equal")}, Nodes: []core.NodeGen{{Fact: "siblings-compared", Kill: func(c *core.Ctx, n *core.GNode) bool {
+				// the knowledge is about this level's pair: combining the pair (or moving to the next leaf) ends it
+				for _, call := range core.CallsIn(n.Ast) {
+					if fnc := core.Callee(c.Info, call); fnc != nil && core.ShortName(fnc) == mkl+"GetHashFromTwoHash" {
+						return false // killed after the sink is examined: handled by the loop structure below
+					}
+				}
+				_, isInc := n.Ast.(*ast.IncDecStmt)
+				return isInc
+			}}}}
+			core.Dominated{Fn: fn, Spec: sp, Sink: core.SinkPred{Label: "pairing of a stored sibling with the current hash in the leaf loop", Match: func(fl *core.Flow, n *core.GNode) bool {
+				if n.Ast == nil || !inLeafLoop(n.Ast.Pos()) {
+					return false
+				}
+				for _, call := range core.CallsIn(n.Ast) {
+					if fnc := core.Callee(fl.C.Info, call); fnc != nil && core.ShortName(fnc) == mkl+"GetHashFromTwoHash" {
+						return true
+					}
+				}
+				return false
+			}}, Need: []Fact{"siblings-compared"}, Min: 1}.Check(r)
+		}),
+		rule("R18g", "both copies of the upward propagation switch to sibling collection at the match level", 2, func(r *Run) {
+			f := r.Fn(mkl + "Computation")
+			if f == nil {
+				return
+			}
+			c := f.Ctx()
+			n := 0
+			ast.Inspect(f.Body(), func(x ast.Node) bool {
+				is, ok := x.(*ast.IfStmt)
+				if !ok {
+					return true
+				}
+				b, ok := ast.Unparen(is.Cond).(*ast.BinaryExpr)
+				if !ok || b.Op != token.EQL {
+					return true
+				}
+				lx, okx := ast.Unparen(b.X).(*ast.Ident)
+				ly, oky := ast.Unparen(b.Y).(*ast.Ident)
+				if !okx || !oky {
+					return true
+				}
+				tx, ty := c.Info.TypeOf(lx), c.Info.TypeOf(ly)
+				if tx == nil || ty == nil || tx.String() != "uint32" || ty.String() != "uint32" {
+					return true
+				}
+				appends, switches := false, false
+				for _, st := range is.Body.List {
+					as, ok := st.(*ast.AssignStmt)
+					if !ok || len(as.Lhs) != 1 || len(as.Rhs) != 1 {
+						continue
+					}
+					if call, ok := as.Rhs[0].(*ast.CallExpr); ok && core.IsBuiltinCall(c.Info, call, "append") {
+						appends = true
+					}
+					if tv, ok := c.Info.Types[as.Rhs[0]]; ok && tv.Value != nil && tv.Value.String() == "true" {
+						switches = true
+					}
+				}
+				if !appends {
+					return true
+				}
+				n++
+				label := fmt.Sprintf("%s: match-level arm #%d appends the current hash and switches to sibling collection", f.Name, n)
+				if switches {
+					r.OK(label, r.W.Pos(is.Pos()), core.ExprStr(is.Cond))
+				} else {
+					r.Fail(label, r.W.Pos(is.Pos()), "this copy of the propagation step appends the hash but does not set the collecting flag: the branch loses every sibling above this level (its twin in the other loop sets it)")
+				}
+				return true
+			})
+			if n < 2 {
+				r.Fail(f.Name+": match-level arms", r.W.Pos(f.Node().Pos()), fmt.Sprintf("expected the two copies of the propagation step, found %d", n))
+			}
+		}),
+	)
+
+	pu := "blockchain.(*Push)."
+	extend("C32", "R32g (added after a seeded change was missed): a runner is started only while push.mu is held, so reading a task's 'not running' status and starting its runner cannot interleave with another registration.",
+		rule("R32g", "runTask is only called with push.mu held", 2, func(r *Run) {
+			for _, fn := range []string{pu + "addTask", pu + "check2ResumePush"} {
+				lk := lockSpecFor(r, bcp+"Push", "mu")
+				if lk == nil {
+					return
+				}
+				core.Dominated{Fn: fn, Spec: lk, Sink: core.CallSink(pu + "runTask"), Need: []Fact{"W:mu"}, Min: 1}.Check(r)
+			}
+		}),
+	)
+
+	extend("C34", "R34c (added after a seeded change was missed): a pending light block is handed to the time-out path only after a rebuild attempt on it has just failed.",
+		rule("R34c", "time-out only after a failed rebuild attempt", 1, func(r *Run) {
+			fn := bcast + "(*ltBroadcast).buildPendList"
+			core.Dominated{Fn: fn, Spec: spec(isFalse("rebuild-failed", bcast+"(*ltBroadcast).buildPendBlock")), Sink: core.SinkPred{Label: "append to the timed-out list", Match: func(fl *core.Flow, n *core.GNode) bool {
+				as, ok := n.Ast.(*ast.AssignStmt)
+				if !ok || len(as.Lhs) != 1 || len(as.Rhs) != 1 {
+					return false
+				}
+				call, ok := as.Rhs[0].(*ast.CallExpr)
+				if !ok || !core.IsBuiltinCall(fl.C.Info, call, "append") || len(call.Args) != 2 {
+					return false
+				}
+				t := fl.C.Info.TypeOf(call.Args[1])
+				return t != nil && strings.HasSuffix(t.String(), "broadcast.pendBlock") && core.CanonExpr(fl.C, as.Lhs[0]) == core.CanonExpr(fl.C, call.Args[0])
+			}}, Need: []Fact{"rebuild-failed"}, Min: 1}.Check(r)
+		}),
+	)
+
+	extend("C35", "R35d-R35e (added after seeded changes were missed): every re-download of a failed height starts from a peer list built for that height (a peer dropped while fetching one height is available again for the next); a block handed on by the single-block fetch has been tested to be present in the reply.",
+		rule("R35d", "each re-downloaded height gets its own peer list", 1, func(r *Run) {
+			f := r.Fn(dl + "(*Protocol).checkTask")
+			if f == nil {
+				return
+			}
+			c := f.Ctx()
+			n := 0
+			for _, lp := range core.LoopsIn(f) {
+				var body *ast.BlockStmt
+				switch s := lp.(type) {
+				case *ast.ForStmt:
+					body = s.Body
+				case *ast.RangeStmt:
+					body = s.Body
+				}
+				ast.Inspect(body, func(x ast.Node) bool {
+					call, ok := x.(*ast.CallExpr)
+					if !ok {
+						return true
+					}
+					fnc := core.Callee(c.Info, call)
+					if fnc == nil || core.ShortName(fnc) != dl+"(*Protocol).downloadBlock" || len(call.Args) < 2 {
+						return true
+					}
+					n++
+					label := fmt.Sprintf("%s: downloadBlock #%d in the re-download loop receives a peer list created in that iteration", f.Name, n)
+					good := false
+					if core.CallAtom([]string{dl + "(*Protocol).initJob"})(c, call.Args[1]) {
+						good = true
+					} else if id, ok := ast.Unparen(call.Args[1]).(*ast.Ident); ok {
+						o := c.Info.ObjectOf(id)
+						if o != nil && o.Pos() >= body.Pos() && o.Pos() <= body.End() && core.FromCall(0, dl+"(*Protocol).initJob")(c, id) {
+							good = true
+						}
+					}
+					if good {
+						r.OK(label, r.W.Pos(call.Pos()), core.ExprStr(call.Args[1]))
+					} else {
+						r.Fail(label, r.W.Pos(call.Pos()), "the peer list is shared between the heights of the loop: downloadBlock removes failing peers from it, so a peer that could not serve one height is never asked for the others")
+					}
+					return true
+				})
+			}
+			if n == 0 {
+				r.Fail(f.Name+": re-download loop", r.W.Pos(f.Node().Pos()), "no downloadBlock call inside a loop (anchor changed)")
+			}
+		}),
+		rule("R35e", "the single-block fetch returns a block it has tested to be present", 1, func(r *Run) {
+			fn := dl + "(*Protocol).downloadBlockFromPeerOld"
+			blk := func(c *core.Ctx, e ast.Expr) bool {
+				return core.MentionsAny("types.InvData_Block.Block", "types.(*InvData).GetBlock", "types.(*InvData_Block).GetBlock")(c, e)
+			}
+			core.Dominated{Fn: fn, Spec: &core.FlowSpec{Conds: []core.CondGuard{core.RelGuard("block-present", blk, token.NEQ, isNilLit)}}, Sink: core.SuccessReturn(-1), Need: []Fact{"block-present"}, Min: 1}.Check(r)
+		}),
+	)
+}
+
+func init() {
+	commitMerges := func(id string) core.Rule {
+		return rule(id, "Commit copies EVERY entry of the transaction overlay (tombstones included) into the committed overlay, and deletes nothing there", 2, func(r *Run) {
+			fn := ldb + "Commit"
+			set := []string{dbp + "KV.Set"}
+			sp := &core.FlowSpec{
+				Calls:   []core.CallGuard{{Fact: "entry-merged", Callee: core.Names(set...), Pass: core.OCalled, NoArgDeps: true, ArgOK: recvFieldCall("cache")}},
+				Foralls: []core.ForallGuard{{Fact: "every-entry-merged", Inner: "entry-merged"}},
+				// decided for a transaction that wrote something
+				Assume: func(c *core.Ctx, e ast.Expr) core.Tri {
+					if op, ok := core.CmpAtom(c, e, core.IsObj(dbp+"LocalDB.txcache"), isNilLit); ok {
+						return map[bool]core.Tri{true: core.True, false: core.False}[op == token.NEQ]
+					}
+					return core.Unknown
+				},
+			}
+			core.Dominated{Fn: fn, Spec: sp, Sink: core.CallSink(ldb + "resetTx"), Need: []Fact{"every-entry-merged"}, Min: 1}.Check(r)
+			f := r.Fn(fn)
+			if f != nil {
+				c := f.Ctx()
+				label := f.Name + " removes nothing from the committed overlay"
+				bad := token.NoPos
+				ast.Inspect(f.Body(), func(x ast.Node) bool {
+					if call, ok := x.(*ast.CallExpr); ok && recvFieldCall("cache")(c, call) {
+						if fnc := core.Callee(c.Info, call); fnc != nil && (fnc.Name() == "Delete" || fnc.Name() == "DeleteSync") {
+							bad = call.Pos()
+						}
+					}
+					return true
+				})
+				if bad == token.NoPos {
+					r.OK(label, r.W.Pos(f.Node().Pos()), "no Delete on l.cache")
+				} else {
+					r.Fail(label, r.W.Pos(bad), "deleting a key from the committed overlay un-hides the base value: a delete marker must be written instead")
+				}
+			}
+		})
+	}
+	extend("C08", "R08e (added after a seeded change was missed): Commit copies every entry of the transaction overlay — delete markers included — into the committed overlay and never deletes from it (removing a key there would make the base value visible again).", commitMerges("R08e"))
+	extend("C07", "R07g (same rule as R08e): the merged view that listing pages over keeps every delete marker of a committed transaction.", commitMerges("R07g"))
+
+	prefixBound := func(id string) core.Rule {
+		return rule(id, "the prefix upper bound is cut off right after the byte it increments", 2, func(r *Run) {
+			// bytesPrefix: limit = prefix[:i+1] with byte i incremented; anything kept behind position i (trailing
+			// 0xff bytes) makes the bound too large and lets keys outside the prefix into the scan.
+			f := r.Fn(dbp + "bytesPrefix")
+			if f == nil {
+				return
+			}
+			c := f.Ctx()
+			res := f.Sig().Results()
+			// the loop variable of the descending scan
+			var iv types.Object
+			for _, lp := range core.LoopsIn(f) {
+				if fs, ok := lp.(*ast.ForStmt); ok && fs.Init != nil {
+					if as, ok := fs.Init.(*ast.AssignStmt); ok && len(as.Lhs) == 1 {
+						if id, ok := as.Lhs[0].(*ast.Ident); ok {
+							iv = c.Info.ObjectOf(id)
+						}
+					}
+				}
+			}
+			isI := func(c *core.Ctx, e ast.Expr) bool {
+				id, ok := ast.Unparen(e).(*ast.Ident)
+				return ok && iv != nil && c.Info.ObjectOf(id) == iv
+			}
+			plus1 := core.PlusOne(isI)
+			// every definition of a returned variable is nil/zero, make([]byte, i+1) or something sliced to [:i+1]
+			cut := func(e ast.Expr) bool {
+				e = ast.Unparen(e)
+				if call, ok := e.(*ast.CallExpr); ok && core.IsBuiltinCall(c.Info, call, "make") && len(call.Args) >= 2 && plus1(c, call.Args[1]) {
+					return true
+				}
+				found := false
+				ast.Inspect(e, func(x ast.Node) bool {
+					if se, ok := x.(*ast.SliceExpr); ok && se.High != nil && plus1(c, se.High) && (se.Low == nil || core.IsConstInt(0)(c, se.Low)) {
+						found = true
+					}
+					return true
+				})
+				return found
+			}
+			n := 0
+			check := func(e ast.Expr, pos token.Pos) {
+				e = ast.Unparen(e)
+				if isNilLit(c, e) {
+					return
+				}
+				id, ok := e.(*ast.Ident)
+				if !ok {
+					n++
+					label := fmt.Sprintf("%s: returned bound #%d has length i+1", f.Name, n)
+					if cut(e) {
+						r.OK(label, r.W.Pos(pos), core.ExprStr(e))
+					} else {
+						r.Fail(label, r.W.Pos(pos), fmt.Sprintf("`%s` is not cut to i+1 bytes", core.ExprStr(e)))
+					}
+					return
+				}
+				for _, d := range c.DefsOf(c.Info.ObjectOf(id)) {
+					if d.Rhs == nil || isNilLit(c, d.Rhs) {
+						continue
+					}
+					n++
+					label := fmt.Sprintf("%s: definition #%d of the returned bound has length i+1", f.Name, n)
+					if cut(d.Rhs) {
+						r.OK(label, r.W.Pos(d.Stmt.Pos()), core.ExprStr(d.Rhs))
+					} else {
+						r.Fail(label, r.W.Pos(d.Stmt.Pos()), fmt.Sprintf("`%s` keeps the bytes behind the incremented one: for a prefix ending in 0xff the bound is too large and the scan returns keys outside the prefix", core.ExprStr(d.Rhs)))
+					}
+				}
+			}
+			for _, ret := range f.Graph().Returns() {
+				rs, ok := ret.Ast.(*ast.ReturnStmt)
+				if !ok {
+					continue
+				}
+				if len(rs.Results) == 1 {
+					check(rs.Results[0], rs.Pos())
+				} else if res.Len() == 1 && res.At(0).Name() != "" {
+					for _, d := range c.DefsOf(res.At(0)) {
+						if d.Rhs != nil {
+							check(d.Rhs, d.Stmt.Pos())
+						}
+					}
+				}
+			}
+			if n == 0 {
+				r.Fail(f.Name+": returned bound", r.W.Pos(f.Node().Pos()), "no non-nil definition of the returned bound found")
+			}
+			// the incremented byte is byte i
+			okInc := false
+			ast.Inspect(f.Body(), func(x ast.Node) bool {
+				as, ok := x.(*ast.AssignStmt)
+				if !ok || len(as.Lhs) != 1 {
+					return true
+				}
+				if ix, ok := ast.Unparen(as.Lhs[0]).(*ast.IndexExpr); ok && isI(c, ix.Index) {
+					okInc = true
+				}
+				if inc, ok := x.(*ast.IncDecStmt); ok {
+					_ = inc
+				}
+				return true
+			})
+			label := f.Name + ": the byte at position i is the one that is incremented"
+			if okInc {
+				r.OK(label, r.W.Pos(f.Node().Pos()), "limit[i] = …")
+			} else {
+				r.Fail(label, r.W.Pos(f.Node().Pos()), "no store to element i of the bound")
+			}
+		})
+	}
+	extend("C06", "R06f (added after a seeded change was missed): the prefix upper bound returned by bytesPrefix is cut off right after the byte it increments.", prefixBound("R06f"))
+	extend("C07", "R07h (same rule as R06f): the range a paged listing scans ends at the true upper bound of its prefix.", prefixBound("R07h"))
+}
+
+func init() {
+	extend("C34", "R34d (added after a seeded change was missed): when a pooled entry is a transaction group, every slot of the group in the rebuilt block — the head's included — is filled from the group's own member list, starting at member 0 (the pooled head entry is the packed group, not the first member).",
+		rule("R34d", "group expansion covers every member, head included", 1, func(r *Run) {
+			f := r.Fn(bcast + "(*ltBroadcast).buildPendBlock")
+			if f == nil {
+				return
+			}
+			c := f.Ctx()
+			grp := core.DerivedFromCall("types.(*Transaction).GetTxGroup")
+			n := 0
+			for _, lp := range core.LoopsIn(f) {
+				var body *ast.BlockStmt
+				switch s := lp.(type) {
+				case *ast.ForStmt:
+					body = s.Body
+				case *ast.RangeStmt:
+					body = s.Body
+				}
+				fills := false
+				ast.Inspect(body, func(x ast.Node) bool {
+					switch x.(type) {
+					case *ast.ForStmt, *ast.RangeStmt:
+						return false // a nested loop is examined on its own
+					}
+					as, ok := x.(*ast.AssignStmt)
+					if !ok || len(as.Lhs) != 1 {
+						return true
+					}
+					ix, ok := ast.Unparen(as.Lhs[0]).(*ast.IndexExpr)
+					if !ok {
+						return true
+					}
+					if b, ok := ast.Unparen(ix.Index).(*ast.BinaryExpr); ok && b.Op == token.ADD && core.CallsAny("types.(*Block).GetTxs")(c, ix.X) {
+						fills = true
+					}
+					return true
+				})
+				if !fills {
+					continue
+				}
+				n++
+				label := fmt.Sprintf("%s: expansion loop #%d runs over the whole member list of the group", f.Name, n)
+				if core.CountsOver(grp, 0)(c, lp) {
+					r.OK(label, r.W.Pos(lp.Pos()), "from member 0")
+				} else {
+					r.Fail(label, r.W.Pos(lp.Pos()), "the loop that copies the group's members into the block does not start at member 0 of the group's list: the head slot keeps the pooled (packed) entry and the rebuilt block differs from the original")
+				}
+			}
+			if n == 0 {
+				r.Fail(f.Name+": group expansion loop", r.W.Pos(f.Node().Pos()), "no loop stores block.Txs[index+j] (anchor changed)")
+			}
+		}),
+	)
+	extend("C25", "R25f (added after a seeded change was missed): under chainLock a block is handed to maybeAcceptBlock only after blockExists said it is not known — two deliveries of the same block that both passed the unlocked pre-check are serialised by the lock and the second one stops here.",
+		rule("R25f", "the duplicate test is repeated under chainLock before a block is accepted", 2, func(r *Run) {
+			lk := lockSpecFor(r, bcp+"BlockChain", "chainLock")
+			if lk == nil {
+				return
+			}
+			lk.Calls = append(lk.Calls, isFalse("not-known-yet", bcm+"blockExists"))
+			core.Dominated{Fn: bcm + "maybeAddBestChain", Spec: lk, Sink: core.CallSink(bcm + "maybeAcceptBlock"), Need: []Fact{"W:chainLock", "not-known-yet"}, Min: 1}.Check(r)
+			core.Dominated{Fn: bcm + "maybeAddBestChain", Spec: lk, Sink: core.CallSink(bcm + "blockExists"), Need: []Fact{"W:chainLock"}, Min: 1}.Check(r)
+		}),
+	)
 }
